@@ -123,6 +123,13 @@ class C07(Check):
             {**base, 'notation': 'batch-getitem', 'other': 'batch-proxy', 'plan': [c('echo', [1, 2]), c('noargs', []), c('ret', [None])]},
             {**base, 'notation': 'proxy', 'other': 'send', 'plan': [c('rpc_err2', []), c('nope', [])]},
             {**base, 'id_gen': {'kind': 'sequential', 'start': 0, 'step': 1}, 'notation': 'call', 'other': 'batch-add', 'plan': [c('echo', [], {'a': 0})]},
+            # library exceptions raised from inside a method body are ordinary server errors for the caller (both dispatchers)
+            {**base, 'notation': 'call', 'other': 'batch-add', 'plan': [c('boom', []), c('boom2', [])],
+             'behaviours': {'boom': {'kind': 'raise_exc', 'exc': 'ValidationError', 'marker': 'MARKER-v7-zq'},
+                            'boom2': {'kind': 'raise_exc', 'exc': 'DeserializationError', 'marker': 'MARKER-d7-zq'}}},
+            {**base, 'client': 'async', 'dispatcher': 'async', 'notation': 'proxy', 'other': 'batch-send', 'plan': [c('boom', []), n('boom2', [])],
+             'behaviours': {'boom': {'kind': 'raise_exc', 'exc': 'ValidationError', 'marker': 'MARKER-v7-zq'},
+                            'boom2': {'kind': 'raise_exc', 'exc': 'TimeoutError', 'marker': 'MARKER-t7-zq'}}},
         ]
 
     # ---- executing one notation ----------------------------------------------------------------------------
